@@ -162,7 +162,7 @@ def cases_module_source(tr, cases, modnames):
     """Python source of a module defining case_<i>() for each expression string"""
     lines = []
     for m in tr.modules:
-        names = [k for k in m.classes if k in T.CLASS_TAG] + \
+        names = [k for k in m.classes] + \
                 [k for k, fi in m.funcs.items() if fi.cls is None and k != "main"] + list(m.globals)
         names = [n for n in names if n.isidentifier()]
         if names:
